@@ -1,7 +1,7 @@
 (* C02  Memo discipline: GETs resolve, PUTs are fresh, MARK is never memoised. *)
 From Coq Require Import List NArith Bool.
 From PF Require Import Config Sim Ref Lex Envelope Oracles.
-From PF.proofs Require Import Refine Run PropsR Examples.
+From PF.proofs Require Import Refine Run PropsR LexRT PropsB Examples.
 
 (* memo_run checks memo_ok before every step of the reference run: a GET-family index was
    defined by an earlier PUT-family/MEMOIZE, a PUT-family index is not yet defined, and the
@@ -10,6 +10,12 @@ Theorem C02_tokens : forall c framed steps,
   safeb c = true -> run_R c framed steps -> memo_run rinit (run_tokens c framed steps) = true.
 Proof. exact C02_R. Qed.
 Print Assumptions C02_tokens.
+
+Theorem C02_bytes : forall c framed steps,
+  safeb c = true -> run_R c framed steps -> fits c framed steps ->
+  oracle_C02 (serialize (run_tokens c framed steps)) = true.
+Proof. exact C02_B. Qed.
+Print Assumptions C02_bytes.
 
 Example C02_nonvacuous : safeb (ex_cfg V2 11) = true /\ run_R (ex_cfg V2 11) false ex_steps1.
 Proof. exact (conj (proj1 ex_safe) ex_run1). Qed.
